@@ -76,7 +76,7 @@ def pool():
 class C01(Check):
     pid = 'C01'
     level = 'exploration'
-    rule = ('from_kd_buf on (a) every record within Hamming distance <=2 (quick: bases zero/captured; thorough: 4 bases) of the '
+    rule = ('from_kd_buf on (a) every record within Hamming distance <=2 (quick: bases zero/captured; thorough: 4 bases, and distance 3 around the captured record: 22.2M) of the '
             'base records, (b) every value 0..255 of each of the 64 bytes on each base, (c) all 2^16 values of '
             'the low and of the high half of the debug id on two bases, (d) all ordered sequences of <=3 decodes over a '
             'pool of 8 records that share sub-fields (result must equal the solo decode), (e) all ordered triples over a 9-record pool '
@@ -91,7 +91,7 @@ class C01(Check):
         return ['zero', 'captured'] if self.tier == 'quick' else list(BASES)
 
     def bounds(self):
-        return {'bases': self.bases(), 'hamming_radius': 2, 'history_len': 3, 'pool': 8}
+        return {'bases': self.bases(), 'hamming_radius': 2, 'hamming_radius_3_on_captured': self.tier == 'thorough', 'history_len': 3, 'pool': 8}
 
     def shards(self):
         out = []
@@ -104,6 +104,10 @@ class C01(Check):
             out.append(('dbg16', bn, 1))
         out.append(('hist',))
         out.append(('containers',))
+        if self.tier == 'thorough':
+            # radius 3 around the captured record: C(512,3) = 22.2M records, sharded by the first flipped bit
+            for lo in range(0, 510):
+                out.append(('ball3', 'captured', lo))
         return out
 
     def run_shard(self, desc, acc):
@@ -141,6 +145,14 @@ class C01(Check):
                     pass
                 for j in range(i + 1, 512):
                     self._one(acc, flip(b1, [j]), ('ball', bn, [i, j]), nontrivial=True)
+        elif kind == 'ball3':
+            _, bn, i = desc
+            base = BASES[bn]
+            b1 = flip(base, [i])
+            for j in range(i + 1, 511):
+                b2 = flip(b1, [j])
+                for k in range(j + 1, 512):
+                    self._one(acc, flip(b2, [k]), ('ball', bn, [i, j, k]), nontrivial=True)
         elif kind == 'bytes':
             _, bn = desc
             base = BASES[bn]
